@@ -172,6 +172,11 @@ fn crashed(r: &Ran) -> Option<String> {
 
 /// what the library says about this text and input
 struct LibView {
+    /// the library's error message without any prefix ("" = none) and its sort ("parse" / "runtime")
+    err_msg: String,
+    err_sort: &'static str,
+    /// (line, issue, suggestions) of every diagnostic, in the library's order
+    diags: Vec<(u32, String, Vec<String>)>,
     exec_stdout: Vec<u8>,
     /// "" | "Parse error: ...\n" | "Runtime error: ...\n"
     exec_stderr: String,
@@ -188,6 +193,9 @@ fn library_view(src: &str, stdin: &[u8]) -> Result<LibView, Outcome> {
         Caught::Done(Err(e)) => {
             let msg = format!("Parse error: {}\n", e.text);
             return Ok(LibView {
+                err_msg: e.text.clone(),
+                err_sort: "parse",
+                diags: vec![],
                 exec_stdout: vec![],
                 exec_stderr: msg.clone(),
                 lint_stdout: String::new(),
@@ -228,7 +236,53 @@ fn library_view(src: &str, stdin: &[u8]) -> Result<LibView, Outcome> {
         None => (String::new(), "ok"),
         Some((_, msg)) => (format!("Runtime error: {}\n", msg), if out.stdout.is_empty() { "runtime_error" } else { "runtime_error_after_output" }),
     };
-    Ok(LibView { exec_stdout: out.stdout, exec_stderr, lint_stdout, lint_stderr: String::new(), parse_stdout, parse_stderr: String::new(), class })
+    Ok(LibView {
+        err_msg: out.err.as_ref().map_or(String::new(), |(_, m)| m.clone()),
+        err_sort: if out.err.is_some() { "runtime" } else { "" },
+        diags: diags.iter().map(|d| (d.line, d.issue.clone(), d.suggestions.clone())).collect(),
+        exec_stdout: out.stdout,
+        exec_stderr, lint_stdout,
+        lint_stderr: String::new(),
+        parse_stdout,
+        parse_stderr: String::new(),
+        class,
+    })
+}
+
+/// is `text` an error report of the given sort carrying the library's message?  Exact wording of the prefix is not
+/// demanded: the text must name the sort (`parse` / `runtime`, any case) before the message and end after it
+fn reports_error(text: &[u8], sort: &str, msg: &str) -> bool {
+    let t = String::from_utf8_lossy(text);
+    if sort.is_empty() {
+        return t.is_empty();
+    }
+    match t.find(msg) {
+        Some(p) => t[..p].to_lowercase().contains(sort) && t[p + msg.len()..].trim().is_empty(),
+        None => false,
+    }
+}
+
+/// all diagnostics, in order, each with its line number, issue and suggestions (whatever the layout around them)
+fn prints_diags(out: &[u8], diags: &[(u32, String, Vec<String>)]) -> Result<(), String> {
+    let t = String::from_utf8_lossy(out);
+    let mut at = 0usize;
+    for (k, (line, issue, sugg)) in diags.iter().enumerate() {
+        let p = t[at..].find(issue.as_str()).ok_or_else(|| format!("diagnostic #{} ({:?}) is not printed (after the previous one)", k, issue))?;
+        let head = &t[at..at + p];
+        if !head.contains(&line.to_string()) {
+            return Err(format!("diagnostic #{} is printed without its line number {}", k, line));
+        }
+        at += p + issue.len();
+        for s in sugg {
+            let q = t[at..].find(s.as_str()).ok_or_else(|| format!("suggestion {:?} of diagnostic #{} is not printed", s, k))?;
+            at += q + s.len();
+        }
+    }
+    Ok(())
+}
+
+fn squeeze(s: &str) -> String {
+    s.chars().filter(|c| !c.is_whitespace() && *c != ',').collect()
 }
 
 fn check_prog(src: &str, stdin: &[u8], origin: &str) -> Outcome {
@@ -269,7 +323,7 @@ fn check_prog(src: &str, stdin: &[u8], origin: &str) -> Outcome {
     if r.stdout != lib.exec_stdout {
         return Outcome::fail(ctx(&format!("`rrss exec` standard output differs from the library's output\n--- tool:    {}\n--- library: {}", show(&r.stdout), show(&lib.exec_stdout))));
     }
-    if r.stderr != lib.exec_stderr.as_bytes() {
+    if r.stderr != lib.exec_stderr.as_bytes() && !reports_error(&r.stderr, lib.err_sort, &lib.err_msg) {
         return Outcome::fail(ctx(&format!("`rrss exec` standard error differs from the prefixed library error\n--- tool:    {}\n--- library: {}", show(&r.stderr), show(lib.exec_stderr.as_bytes()))));
     }
     digest ^= fnv(&r.stdout) ^ fnv(&r.stderr).rotate_left(7) ^ (r.code.unwrap_or(-1) as u64).rotate_left(50);
@@ -277,7 +331,8 @@ fn check_prog(src: &str, stdin: &[u8], origin: &str) -> Outcome {
     let m = run!("merged", &["exec", fname], stdin, true);
     let mut want = lib.exec_stdout.clone();
     want.extend_from_slice(lib.exec_stderr.as_bytes());
-    if crashed(&m).is_some() || m.stdout != want {
+    let merged_ok = m.stdout == want || (m.stdout.starts_with(&lib.exec_stdout) && reports_error(&m.stdout[lib.exec_stdout.len()..], lib.err_sort, &lib.err_msg));
+    if crashed(&m).is_some() || !merged_ok {
         return Outcome::fail(ctx(&format!("`rrss exec` with both streams on one file: expected the program's output followed by the error\n--- tool:     {}\n--- expected: {}", show(&m.stdout), show(&want))));
     }
     // ---- lint
@@ -285,9 +340,17 @@ fn check_prog(src: &str, stdin: &[u8], origin: &str) -> Outcome {
     if let Some(c) = crashed(&l) {
         return Outcome::fail(ctx(&format!("`rrss lint`: {}; stderr {}", c, show(&l.stderr))));
     }
-    if l.stdout != lib.lint_stdout.as_bytes() || l.stderr != lib.lint_stderr.as_bytes() {
+    let lint_exact = l.stdout == lib.lint_stdout.as_bytes() && l.stderr == lib.lint_stderr.as_bytes();
+    let lint_loose = if lib.err_sort == "parse" {
+        l.stdout.is_empty() && reports_error(&l.stderr, "parse", &lib.err_msg)
+    } else {
+        l.stderr.is_empty() && prints_diags(&l.stdout, &lib.diags).is_ok() && (!lib.diags.is_empty() || !l.stdout.contains(&b'`'))
+    };
+    if !lint_exact && !lint_loose {
+        let why = prints_diags(&l.stdout, &lib.diags).err().unwrap_or_default();
         return Outcome::fail(ctx(&format!(
-            "`rrss lint` does not print the library's diagnostics\n--- tool stdout: {}\n--- expected:    {}\n--- tool stderr: {}\n--- expected:    {}",
+            "`rrss lint` does not print the library's diagnostics ({})\n--- tool stdout: {}\n--- expected:    {}\n--- tool stderr: {}\n--- expected:    {}",
+            why,
             show(&l.stdout),
             show(lib.lint_stdout.as_bytes()),
             show(&l.stderr),
@@ -300,7 +363,14 @@ fn check_prog(src: &str, stdin: &[u8], origin: &str) -> Outcome {
     if let Some(c) = crashed(&p) {
         return Outcome::fail(ctx(&format!("`rrss parse`: {}; stderr {}", c, show(&p.stderr))));
     }
-    if p.stdout != lib.parse_stdout.as_bytes() || p.stderr != lib.parse_stderr.as_bytes() {
+    let parse_exact = p.stdout == lib.parse_stdout.as_bytes() && p.stderr == lib.parse_stderr.as_bytes();
+    // layout of the tree dump is free (`{:?}` or `{:#?}`): compared without blanks and commas
+    let parse_loose = if lib.err_sort == "parse" {
+        p.stdout.is_empty() && reports_error(&p.stderr, "parse", &lib.err_msg)
+    } else {
+        p.stderr.is_empty() && squeeze(&String::from_utf8_lossy(&p.stdout)) == squeeze(&lib.parse_stdout)
+    };
+    if !parse_exact && !parse_loose {
         let a = String::from_utf8_lossy(&p.stdout).into_owned();
         let first = a.lines().zip(lib.parse_stdout.lines()).position(|(x, y)| x != y).unwrap_or(0);
         return Outcome::fail(ctx(&format!(
@@ -525,6 +595,7 @@ impl Prop for C20 {
     fn assumptions(&self) -> Vec<String> {
         vec![
             "the tool is run with NO_COLOR=1: colour escape sequences are not part of the property".into(),
+            "layout and wording around the library's data are free: an error report must name its sort (parse / runtime, any case) before the library's message and nothing after it; `lint` must print every diagnostic in order with its line number, issue and suggestions; the tree dump is compared without blanks and commas; program output on stdout is compared byte for byte".into(),
             "the exit status for program and parse errors is not specified by the statement (0 today): recorded as a label, only crashes (101/signal) are refused".into(),
             "programs whose library run exceeds 3000 loop iterations + calls or 1e6 elements per allocation are skipped (counted as resource_bound); a tool run over 60 s is counted as cli_timeout, not judged".into(),
             "standard streams of the tool are files, not pipes (std's stdout is line-buffered in both cases)".into(),
